@@ -239,7 +239,10 @@ func (t *ipTransport) isPaired() bool {
 	// If more than one entity is stored in the database, we are paired with a device.
 	// The transport itself is a device and is stored in the database, therefore
 	// we have to check for more than one entity.
-	if es, err := t.database.Entities(); err == nil && len(es) > 1 {
+	//
+	// When the entities cannot be listed or one of them cannot be read, it is not known that no
+	// controller is paired: the accessory must not announce that it can be paired.
+	if es, err := t.database.Entities(); err != nil || len(es) > 1 {
 		return true
 	}
 
